@@ -49,6 +49,10 @@ struct GFp
   friend bool operator>(const GFp& a, const GFp& b) { return a.v > b.v; }
   friend bool operator<=(const GFp& a, const GFp& b) { return a.v <= b.v; }
   friend bool operator>=(const GFp& a, const GFp& b) { return a.v >= b.v; }
+  // comparison with a floating-point threshold (absreal(x) < FMatrixPrecision<>::absolute_limit() under
+  // DUNE_FMatrix_WITH_CHECKING): the representative as a real number
+  friend bool operator<(const GFp& a, double d) { return double(a.v) < d; }
+  friend bool operator>(const GFp& a, double d) { return double(a.v) > d; }
   friend GFp abs(const GFp& a) { return a; }
   friend GFp sqrt(const GFp& a) { return a; }   // only to satisfy norms that are never called
   friend std::ostream& operator<<(std::ostream& s, const GFp& a) { return s << a.v; }
